@@ -78,6 +78,7 @@ class Rig:
         # cfg: False / True = header layout, one instance of module 33;  "twin" / "twin-tc": a second connection shares the
         # client's module id (allow_multiple) and holds its own fixed subscriptions (A, B) throughout
         self.twin_on = isinstance(cfg, str) and cfg.startswith("twin")
+        self.logger_on = cfg == "logger"  # the client under test connects as a logger module (individual subscriptions work for it like for anybody)
         tc = cfg is True or cfg == "twin-tc"
         self.tc = tc
         self.w = clx.ClientWorld(timecode=tc)
@@ -96,6 +97,8 @@ class Rig:
         self.c = self.w.new_client(module_id=33, timecode=tc, name="cee")
         if self.twin_on:
             self.c.connect(mmx.SERVER, allow_multiple=True)
+        elif self.logger_on:
+            self.c.connect(mmx.SERVER, logger_status=True)
         else:
             self.c.connect(mmx.SERVER)
         self.w.settle()
@@ -146,7 +149,7 @@ class Rig:
                             except self.CL.ConnectionLost:
                                 break
                     self.w.settle()
-                    c.connect(mmx.SERVER, allow_multiple=True) if self.twin_on else c.connect(mmx.SERVER)
+                    c.connect(mmx.SERVER, allow_multiple=True) if self.twin_on else (c.connect(mmx.SERVER, logger_status=True) if self.logger_on else c.connect(mmx.SERVER))
                     self.w.settle()
                     self.c_mgr_side = c._sock.peer_sock
                     c._sock.rx.clear()
@@ -328,7 +331,10 @@ def _names(st):
 def expand(args):
     tc, hist, tier = args
     out = []
-    for op in operations(tier):
+    ops = operations(tier)
+    if tc == "logger":
+        ops = [op for op in ops if len(op) == 1 or len(op[1]) <= 1]  # the logger configuration: every operation, single-type argument lists
+    for op in ops:
         r = run_history(tc, list(hist) + [op])
         out.append((op, r["key"], r["problems"]))
     return out
@@ -348,7 +354,7 @@ def run(tier: str) -> int:
                      "the client's reported sets.")
     total_states = total_trans = 0
     distinct_outcomes = set()
-    for tc in ((False, "twin") if tier == "quick" else (False, True, "twin", "twin-tc")):
+    for tc in ((False, "twin", "logger") if tier == "quick" else (False, True, "twin", "twin-tc", "logger")):
         r0 = run_history(tc, [("subscribe", [])])
         seen = {r0["key"]: []}
         frontier = [[]]
